@@ -561,12 +561,15 @@ fn setup_masks_fraction(ctx: &mut hb_ot_shape_context_t) {
             }
 
             if start == i || end == i + 1 {
+                // Digits that get joined to the digit-less side turn this into a fraction: the
+                // boundary between the slash and its neighbour on that side is unsafe to concat,
+                // whichever of the two starts the later cluster (the buffer may be reversed).
                 if start == i {
-                    buffer.unsafe_to_concat(Some(start), Some(start + 1));
+                    buffer.unsafe_to_concat(Some(start.saturating_sub(1)), Some(start + 1));
                 }
 
                 if end == i + 1 {
-                    buffer.unsafe_to_concat(Some(end - 1), Some(end));
+                    buffer.unsafe_to_concat(Some(end - 1), Some(end + 1));
                 }
 
                 i += 1;
@@ -574,6 +577,8 @@ fn setup_masks_fraction(ctx: &mut hb_ot_shape_context_t) {
             }
 
             buffer.unsafe_to_break(Some(start), Some(end));
+            // A digit joined to either end of the fraction becomes part of it.
+            buffer.unsafe_to_concat(Some(start.saturating_sub(1)), Some(end + 1));
 
             for info in &mut buffer.info[start..i] {
                 info.mask |= pre_mask;
